@@ -29,11 +29,11 @@ def run(ctx):
     ctx.preload(cfgs)
     for cfg in cfgs:
         fs = ctx.facts(cfg)
-        consumers.consumers(ctx, cfg, fs, 'S.search')
-        consumers.accept_sets(ctx, cfg, fs, 'M.matcher')
-        c07.ledger_only(ctx, cfg, fs, 'I.index-opaque')
-        c08.keep_only(ctx, lambda: c09.tokenizer(ctx, cfg, fs), lambda o: 'marker-' in o.key, 'T.separator')
-        c08.keep_only(ctx, lambda: c08.matched(ctx, cfg, fs), lambda o: 'scope-from-name-to-end' in o.key, 'C.command-scope')
+        ctx.guard(consumers.consumers, ctx, cfg, fs, 'S.search')
+        ctx.guard(consumers.accept_sets, ctx, cfg, fs, 'M.matcher')
+        ctx.guard(c07.ledger_only, ctx, cfg, fs, 'I.index-opaque')
+        ctx.guard(c08.keep_only, ctx, lambda: c09.tokenizer(ctx, cfg, fs), lambda o: 'marker-' in o.key, 'T.separator')
+        ctx.guard(c08.keep_only, ctx, lambda: c08.matched(ctx, cfg, fs), lambda o: 'scope-from-name-to-end' in o.key, 'C.command-scope')
         for nm in ('take_flag', 'take_arg'):
             b = ctx.look(fs.body(consumers.CONSUMERS[nm][0]))
             # locals holding the found index
